@@ -13,7 +13,8 @@ RULE = ("SimulationResult built from 1-4 distinct input states, 1-8 distinct out
         "array entry in list order; mapped result == Python model (per-mode function, coinciding images added), "
         "array/outputs mutually consistent, every input's total conserved; the object a mapping was applied to is "
         "unchanged afterwards; amplitude-typed results refuse mappings with ValueError; unknown keys raise KeyError "
-        "/ TypeError. Non-trivial = at least two outputs share an image under the first mapping; distinct = case JSON.")
+        "/ TypeError. Non-trivial = at least two outputs share an image under the first mapping; distinct = case JSON."
+        " Tables are given as C-ordered, Fortran-ordered, transposed, strided arrays or nested lists, real values also with complex dtype; the caller overwrites its table afterwards.")
 ASSUMPTIONS = ["values compared at 1e-12 relative to the row total", "probability-typed arrays are real (complex "
                "values only for amplitude-typed results)"]
 
